@@ -32,6 +32,16 @@ def shr (a b : Nat) : Nat := a >>> b
 /-- `Instant::checked_add`: `lim` is the largest representable `Instant` (ns offset). -/
 def instantCheckedAdd (lim t d : Nat) : Option Nat := if t + d ≤ lim then some (t + d) else none
 
+/-- One iteration of a compare-exchange retry loop
+`let mut cur = A.load(); loop { …; match A.compare_exchange(cur, new) { Ok(_) => return v, Err(o) => cur = o } }`
+as a function of the value `cur` observed: `done v` = `return v` before the exchange;
+`cas cur new v` = attempt to replace `cur` by `new`: on success return `v`, on failure run the
+iteration again on the value then observed. -/
+inductive CasStep (α : Type) where
+  | done (v : α)
+  | cas (expected new : Nat) (onSuccess : α)
+  deriving DecidableEq, Repr
+
 /-- `unwrap`/`expect`: the panicking path yields `default`. -/
 def unwrap {α : Type} [Inhabited α] (o : Option α) : α := o.getD default
 
